@@ -78,7 +78,14 @@ def run(sc, tier, seed):
     R.states += val["states"]
     R.handle_validation(val, what="history of the real task store is not a behaviour of TaskStore / violates C14")
     R.notes["impl_drift"] = val["drift"]
-    return R.finish("model_checking", ASSUME)
+    rc = R.finish("model_checking", ASSUME)
+    hangs = (meta.get("extra") or {}).get("shutdown_hangs", 0)
+    if hangs and rc == 0:
+        # the stop sequence of the real stack did not return: what was recorded before is valid evidence
+        # (a violation in it stands), but a run cut short cannot certify anything
+        raise V.Broken("%d stop sequence(s) of the real service stack never returned (TaskMaster.StopTasks/Close hung); "
+                       "the run was cut short and no violation was recorded before" % hangs)
+    return rc
 
 
 def replay(sc, path):
